@@ -220,8 +220,30 @@ def standard_queries(rng, content, n_states=2):
 # --------------------------------------------------------------------------- shrinking
 
 
+def well_posed(case) -> bool:
+    """the queries still talk about the content: states name exactly the variables, a per-variable
+    stoichiometry query names a variable some stoichiometry mentions (shrinking must not leave that domain)"""
+    c = case["content"]
+    vnames = [k for k, _ in c.get("vars", [])]
+    touched = set(C.Spec(c).touched_vars())
+    for q in case["queries"]:
+        if q[0] in ("args", "fluxes", "rhs", "stoich", "stoichvar") and q[1] is not None and [k for k, _ in q[1]] != vnames:
+            return False
+        if q[0] == "call" and len(q[2]) != len(vnames):
+            return False
+        if q[0] == "stoichvar" and q[3] not in touched:
+            return False
+        if q[0] == "tc" and any([k for k, _ in st] != vnames for _, st in q[1]):
+            return False
+        if q[0] == "simupd" and any(k not in vnames for k, _ in q[1]):
+            return False
+    return True
+
+
 def _fails(case):
     """R != S on this (single-query) case, judged on real code and oracle only"""
+    if not well_posed(case):
+        return False
     try:
         R = [canon_R(q, r) for q, r in zip(case["queries"], _real_worker(case))]
         S = _spec(case)
